@@ -209,18 +209,7 @@ theorem stmt_exact_partial (env : Env) (silent : Bool) (s : Stmt) (hs : stmtFrag
     apply exact_of_target env tgt
     intro d t
     clear hg hs
-    cases cols with
-    | none =>
-      simp only
-      split
-      · rw [(sameDs_addWriteColumns _ _).eq, tag_w0]
-      · rw [tag_w0]
-    | some cs =>
-      simp only
-      rw [(sameDs_addWriteColumns _ _).eq]
-      split
-      · rw [(sameDs_addWriteColumns _ _).eq, tag_w0]
-      · rw [tag_w0]
+    exact tag_wq0 env true tgt cols d t
   | createTable tgt i cols =>
     simp only [analyze, stmtType, disp_create_table] at hg
     rw [← ok_inj hg]
